@@ -206,6 +206,7 @@ func C08(c *Ctx) {
 
 	c.R.Rule("C08-R8", "E3", "a successful Exec hands back the execution that collected the emitted messages", 1)
 	c08ExecHandsBack(c, "C08-R8")
+	c08Wrappers(c, "C08-R1")
 	c08WalkHandedBack(c, "C08-R5")
 	c08Guards(c)
 	c08Order(c)
